@@ -9,6 +9,8 @@ import (
 	"os"
 	"runtime"
 	"strings"
+	"sync"
+	"sync/atomic"
 	"testing"
 	"testing/synctest"
 
@@ -189,7 +191,10 @@ func runC19(c *sim.Ctx) {
 	runtime.GOMAXPROCS(1)
 	before := runtime.NumGoroutine()
 	var viol *sim.Violation
+	var violMu sync.Mutex
 	fail := func(kind, sig, msg string) {
+		violMu.Lock()
+		defer violMu.Unlock()
 		if viol == nil {
 			viol = &sim.Violation{Kind: kind, Sig: sig, Msg: msg}
 		}
@@ -307,21 +312,20 @@ func runC19(c *sim.Ctx) {
 				return
 			}
 			gate := make(chan struct{})
-			gated := false
-			reads := 0
+			var gated, closeReturnedA atomic.Bool
+			var readsA atomic.Int64
 			tr := &pg.Trace{P: fp}
 			failAt := 0
 			if mode == 2 {
 				failAt = 1 + s.Draw(30, "failat")
 				c.Fault("read-error-mid-scan")
 			}
-			closeReturned := false
 			tr.Event = func(kind string, n int, err error) {
-				if closeReturned && (kind == "page" || kind == "lock-ok" || kind == "lock-fail") {
+				if closeReturnedA.Load() && (kind == "page" || kind == "lock-ok" || kind == "lock-fail") {
 					fail("producer-after-close", "producer-after-close", fmt.Sprintf("%s: the producer touched the database (%s) after rows.Close() had returned", query, kind))
 				}
-				if kind == "page" && gated {
-					reads++
+				if kind == "page" && gated.Load() {
+					readsA.Add(1)
 					<-gate // park (durably blocking inside the bubble)
 				}
 			}
@@ -339,11 +343,11 @@ func runC19(c *sim.Ctx) {
 			// the fault is armed relative to now: it may land in QueryContext's own
 			// column lookup (then QueryContext must fail) or in the producer's scan
 			if failAt > 0 {
-				tr.FailAt = tr.Reads + failAt
+				tr.ArmFailAfter(failAt)
 			}
 			rowsI, err := stmt.QueryContext(ctx, nil)
 			if err != nil {
-				if tr.Fired {
+				if tr.HasFired() {
 					c.Probe("fault-in-query-surfaced")
 				} else {
 					fail("driver-error", "query-error", fmt.Sprintf("QueryContext(%q): %v", query, err))
@@ -353,7 +357,7 @@ func runC19(c *sim.Ctx) {
 			}
 			rows := rowsI.(*drv.Rows)
 			rescue = func() {
-				gated = false
+				gated.Store(false)
 				for k := 0; k < 1000000; k++ {
 					select {
 					case gate <- struct{}{}:
@@ -380,7 +384,7 @@ func runC19(c *sim.Ctx) {
 					cancel()
 				}
 				cerr := rows.Close()
-				closeReturned = true
+				closeReturnedA.Store(true)
 				note("rows.Close() immediately after QueryContext (producer never scheduled yet) -> %v", cerr)
 				c.Fault("close-before-producer-start")
 				synctest.Wait()
@@ -431,7 +435,7 @@ func runC19(c *sim.Ctx) {
 				}
 			}
 			// the producer was started ungated; gate it now
-			gated = true
+			gated.Store(true)
 			steps := 3 + s.Draw(3*len(native)+12, "steps")
 			closed := false
 			for i := 0; i < steps && !ended && !closed; i++ {
@@ -452,7 +456,7 @@ func runC19(c *sim.Ctx) {
 				case "release":
 					select {
 					case gate <- struct{}{}:
-						note("release producer (page read %d)", reads)
+						note("release producer (page read %d)", readsA.Load())
 					default:
 						note("release: producer not parked at a page read")
 					}
@@ -468,14 +472,14 @@ func runC19(c *sim.Ctx) {
 					// Close blocks until the producer is done: run it aside and keep releasing
 					cd := make(chan error, 1)
 					go func() { cd <- rows.Close() }()
-					note("rows.Close() after %d rows (producer at page read %d)", len(got), reads)
+					note("rows.Close() after %d rows (producer at page read %d)", len(got), readsA.Load())
 					c.Fault("close-with-parked-producer")
 					for k := 0; k < 100000 && !closed; k++ {
 						synctest.Wait()
 						select {
 						case <-cd:
 							closed = true
-							closeReturned = true
+							closeReturnedA.Store(true)
 						case gate <- struct{}{}:
 						default:
 							k = 100000 // nothing can move any more
@@ -492,7 +496,7 @@ func runC19(c *sim.Ctx) {
 				collect()
 			}
 			// wind down: release everything, finish pending Next, Close
-			gated = false
+			gated.Store(false)
 			for k := 0; k < 4; k++ {
 				select {
 				case gate <- struct{}{}:
@@ -513,7 +517,7 @@ func runC19(c *sim.Ctx) {
 							return
 						}
 					}
-					if !tr.Fired {
+					if !tr.HasFired() {
 						if eq, at := rowsEq(nat, got, false); !eq {
 							fail("rows-differ", "rows-differ:stmt", fmt.Sprintf("%s through driver.Stmt differs from the native select at row %d (%d vs %d rows)", query, at, len(nat), len(got)))
 						}
@@ -522,16 +526,16 @@ func runC19(c *sim.Ctx) {
 						// a page read of the scan failed: reading to the end must not end quietly
 						cerr := rows.Close()
 						closed = true
-						closeReturned = true
+						closeReturnedA.Store(true)
 						if finalErr == nil && cerr == nil {
-							fail("error-swallowed", "error-swallowed", fmt.Sprintf("%s: a page read failed during the scan (read %d); the driver delivered %d of %d rows, then io.EOF, and Close returned nil", query, tr.FailAt, len(got), len(nat)))
+							fail("error-swallowed", "error-swallowed", fmt.Sprintf("%s: a page read failed during the scan (read %d); the driver delivered %d of %d rows, then io.EOF, and Close returned nil", query, tr.FailPos(), len(got), len(nat)))
 						}
 						c.Probe("mid-scan-fault-surfaced")
 					}
 				}
 				if !closed {
 					rows.Close()
-					closeReturned = true
+					closeReturnedA.Store(true)
 				}
 			}
 			if okp, at := prefixOf(got, nat); !okp {
@@ -623,7 +627,7 @@ func firstWord(s string) string {
 func init() {
 	sim.Register(&sim.Prop{
 		ID: "C19", Engine: "E-DRV", Level: "exploration", Fn: runC19, NewEnv: NewEnv,
-		Runs: map[string]int{"quick": 4000, "thorough": 100000},
+		Runs: map[string]int{"quick": 1600, "thorough": 60000},
 		Rule: "per run: a database from the workload generator; a query `SELECT *|cols FROM t` (drawn column list) through the driver vs the native Select; inside a testing/synctest bubble one of four modes: (0) database/sql: read k rows (k drawn 0..n+1) then read to the end / rows.Close / cancel+Close / cancel+drain; (1) driver.Stmt on a tracing pager with the producer goroutine parked at EVERY page read: a seeded schedule of {release producer, Next (in its own goroutine, may be outstanding while the producer is parked), cancel, Close} one action at a time with synctest.Wait between; (2) the same with a read error injected at the k-th page read of the scan; (3) error inputs (unknown table/column, non-SELECT, unparsable, Exec); oracles: same rows/order/columns as native, errors surface through Query/Next/rows.Err/Close, no goroutine of the bubble left blocked (synctest deadlock report), no POSIX lock of the process left on the file, a SQLite write succeeds afterwards; evaluations = scenarios; non-trivial = table had rows; distinct = distinct event logs",
 		Real: append([]string{"sqlittle driver package, database/sql (real, inside the bubble), producer goroutine; unix file pager on real files"}, realAll...),
 		Stub: []string{"none: the gate in the tracing pager only parks the producer"},
@@ -631,6 +635,16 @@ func init() {
 		MaxRunSecs: 20,
 		DeathSig: func(tail string, hung bool) string {
 			switch {
+			case strings.Contains(tail, "DATA RACE"):
+				site := "unknown"
+				for _, l := range strings.Split(tail, "\n") {
+					l = strings.TrimSpace(l)
+					if strings.HasPrefix(l, "github.com/alicebob/sqlittle") {
+						site = strings.TrimPrefix(strings.SplitN(l, "(", 2)[0], "github.com/alicebob/sqlittle")
+						break
+					}
+				}
+				return "data-race:" + strings.Trim(site, "/.")
 			case hung:
 				return "hang"
 			case strings.Contains(tail, "deadlock") && strings.Contains(tail, "bubble"):
@@ -645,6 +659,9 @@ func init() {
 				if st["probe."+p] == 0 {
 					return fmt.Errorf("reach probe %q is zero", p)
 				}
+			}
+			if !raceEnabled {
+				return fmt.Errorf("the harness binary was not built with -race")
 			}
 			for _, f := range []string{"cancel-with-parked-producer", "close-with-parked-producer", "cancel-at-k", "rows.Close-at-k"} {
 				if st["fault."+f] == 0 {
